@@ -70,185 +70,27 @@ fn bgp_try_parse_framing() {
 // for the KEEPALIVE/NOTIFICATION/ROUTE-REFRESH arms with buffers <= 40 bytes, and for 19..=25-byte UPDATEs with the
 // attribute / NLRI decoders stubbed).  parse_message is therefore handled in the Verus lane (unit packet_parse).
 
-// ------------------------------------------------------------------------------------------ C05: validate_update
+// ------------------------------------------------------------------------------------------ C05: canonical_flags
+// validate_update itself is verified in the Verus lane (unit packet_validate): CBMC needs > 15 minutes on it
+// (measured twice), Verus 2 seconds.  What Verus has to assume is the attribute flag table, proved here.
 
-fn any_block(present: bool, family: u32, id: u32, n: usize) -> Vec<PathNlri> {
-    let mut v = Vec::new();
-    if present && n > 0 {
-        v.push(PathNlri { path_id: id, nlri: Nlri::V4(Ipv4Net { addr: Ipv4Addr::new(10, 0, 0, 0), mask: 8 }) });
-    }
-    let _ = family;
-    v
-}
-
-/// The property's classifier: an attribute error may be handled by discarding just that attribute only for an
-/// optional non-transitive attribute (by the attribute's definition, i.e. its canonical flags; by the received
-/// flags only when the code is unknown), or AS4_PATH / AS4_AGGREGATOR.
-fn discardable(code: u8, wire_flags: u8) -> bool {
-    if code == Attribute::AS4_PATH || code == Attribute::AS4_AGGREGATOR {
-        return true;
-    }
-    let f = match Attribute::canonical_flags(code) {
-        Some(f) => f,
-        None => wire_flags,
+/// `Attribute::canonical_flags` equals the RFC flag table used as `spec_canonical` in /verif/specs/p_packet.rs,
+/// for all 256 attribute type codes (loop-free, full domain: complete).
+#[kani::proof]
+fn c05_canonical_flags_table() {
+    let code: u8 = kani::any();
+    let expect: Option<u8> = if code == 1 || code == 2 || code == 3 || code == 5 || code == 6 {
+        Some(0x40)
+    } else if code == 4 || code == 9 || code == 10 || code == 14 || code == 15 || code == 26 || code == 29 {
+        Some(0x80)
+    } else if code == 7 || code == 8 || code == 16 || code == 17 || code == 18 || code == 32 || code == 40 || code == 23 {
+        Some(0xC0)
+    } else {
+        None
     };
-    f & Attribute::FLAG_OPTIONAL != 0 && f & Attribute::FLAG_TRANSITIVE == 0
-}
-
-fn is_flowspec(f: Family) -> bool {
-    matches!(f, Family::IPV4_FLOWSPEC | Family::IPV6_FLOWSPEC | Family::IPV4_FLOWSPEC_VPN | Family::IPV6_FLOWSPEC_VPN)
-}
-
-fn blk(id: u32) -> Vec<PathNlri> {
-    vec![PathNlri { path_id: id, nlri: Nlri::V4(Ipv4Net { addr: Ipv4Addr::new(10, 0, 0, 0), mask: 8 }) }]
-}
-
-fn val_attr(code: u8) -> Attribute {
-    Attribute { flags: 0x40, code, data: AttributeData::Val(0) }
-}
-
-/// C05 (`validate_update`, the RFC 7606 classifier): complete over every (code, flags) pair of up to two recorded
-/// attribute errors and the presence of each of the four NLRI blocks (any family, any path id); the UPDATE carries
-/// ORIGIN, AS_PATH and a next hop so that only the classifier decides.  Bounded in list lengths only
-/// (<= 2 errors, 1 entry per block).
-#[kani::proof]
-#[kani::unwind(6)]
-fn c05_validate_update_classifier() {
-    let n_err: usize = kani::any();
-    kani::assume(n_err <= 2);
-    let c0: u8 = kani::any();
-    let f0: u8 = kani::any();
-    let c1: u8 = kani::any();
-    let f1: u8 = kani::any();
-    let mut error_attrs = Vec::new();
-    if n_err >= 1 { error_attrs.push(AttributeError { attr_code: c0, attr_flags: f0 }); }
-    if n_err >= 2 { error_attrs.push(AttributeError { attr_code: c1, attr_flags: f1 }); }
-    let attrs = vec![val_attr(Attribute::ORIGIN), val_attr(Attribute::AS_PATH)];
-    let p: [bool; 4] = kani::any();
-    let fam: [u32; 4] = kani::any();
-    let ids: [u32; 4] = kani::any();
-    kani::assume(ids[0] != ids[1] && ids[0] != ids[2] && ids[0] != ids[3] && ids[1] != ids[2] && ids[1] != ids[3] && ids[2] != ids[3]);
-    let nh = Some(Nexthop::V4(Ipv4Addr::new(192, 0, 2, 1)));
-    let reach = if p[0] { Some(ReachNlri { family: Family(fam[0]), entries: blk(ids[0]), nexthop: nh }) } else { None };
-    let mp_reach = if p[1] { Some(ReachNlri { family: Family(fam[1]), entries: blk(ids[1]), nexthop: nh }) } else { None };
-    let unreach = if p[2] { Some(UnreachNlri { family: Family(fam[2]), entries: blk(ids[2]) }) } else { None };
-    let mp_unreach = if p[3] { Some(UnreachNlri { family: Family(fam[3]), entries: blk(ids[3]) }) } else { None };
-    let faulty = (n_err >= 1 && !discardable(c0, f0)) || (n_err >= 2 && !discardable(c1, f1));
-
-    let r = validate_update(ParsedUpdate::Routes { reach, mp_reach, unreach, mp_unreach, attrs, error_attrs }, false);
-    assert!(r.is_ok(), "C05.attribute_errors_never_reset_the_session");
-    let msgs = r.unwrap();
-    assert!(msgs.len() <= 4);
-    let mut n_reach = 0;
-    let mut withdrawn = [false; 4];
-    let mut k = 0;
-    while k < msgs.len() {
-        match &msgs[k] {
-            Message::Update(Update::Reach { family: _, entries, nexthop: _, attr: _ }) => {
-                n_reach += 1;
-                assert!(!faulty, "C05.no_route_kept_when_nondiscardable_attribute_failed");
-                assert!(entries.len() == 1 && ((p[0] && entries[0].path_id == ids[0]) || (p[1] && entries[0].path_id == ids[1])),
-                        "C05.kept_route_is_an_announced_one");
-            }
-            Message::Update(Update::Unreach { family, entries }) => {
-                assert!(entries.len() == 1);
-                let id = entries[0].path_id;
-                if p[0] && id == ids[0] && family.0 == fam[0] { withdrawn[0] = true; }
-                if p[1] && id == ids[1] && family.0 == fam[1] { withdrawn[1] = true; }
-                if p[2] && id == ids[2] && family.0 == fam[2] { withdrawn[2] = true; }
-                if p[3] && id == ids[3] && family.0 == fam[3] { withdrawn[3] = true; }
-            }
-            _ => { assert!(false, "C05.only_updates_come_out"); }
-        }
-        k += 1;
-    }
-    assert!(!p[2] || withdrawn[2], "C05.withdrawals_still_take_effect");
-    assert!(!p[3] || withdrawn[3], "C05.mp_withdrawals_still_take_effect");
-    if faulty {
-        assert!(n_reach == 0, "C05.no_route_kept_when_nondiscardable_attribute_failed");
-        assert!(!p[0] || withdrawn[0], "C05.announced_prefixes_treated_as_withdrawn");
-        assert!(!p[1] || withdrawn[1], "C05.mp_announced_prefixes_treated_as_withdrawn");
-        kani::cover!(p[0] || p[1], "treat-as-withdraw reachable");
-    } else {
-        assert!(n_reach == (p[0] as usize) + (p[1] as usize), "C05.route_kept_when_only_discardable_attributes_failed");
-        assert!(!withdrawn[0] && !withdrawn[1], "C05.kept_route_is_not_withdrawn");
-        kani::cover!((p[0] || p[1]) && n_err > 0, "attribute-discard path reachable");
-    }
-    core::mem::forget(msgs);
-    kani::cover!(true, "harness end reachable");
-}
-
-/// C05 (`validate_update`, mandatory attributes and iBGP-only attributes): no attribute errors; presence of ORIGIN,
-/// AS_PATH, LOCAL_PREF, ORIGINATOR_ID, CLUSTER_LIST, MED symbolic; presence of the announced blocks and of their next hops
-/// symbolic; any MP family; is_ebgp symbolic.
-#[kani::proof]
-#[kani::unwind(8)]
-fn c05_validate_update_mandatory_and_ebgp() {
-    let has: [bool; 6] = kani::any();
-    let codes = [Attribute::ORIGIN, Attribute::AS_PATH, Attribute::LOCAL_PREF, Attribute::ORIGINATOR_ID, Attribute::CLUSTER_LIST, Attribute::MULTI_EXIT_DESC];
-    let mut attrs = Vec::new();
-    let mut n_attr = 0;
-    let mut n_ibgp_only = 0;
-    let mut i = 0;
-    while i < 6 {
-        if has[i] {
-            attrs.push(val_attr(codes[i]));
-            n_attr += 1;
-            if i >= 2 && i <= 4 { n_ibgp_only += 1; }
-        }
-        i += 1;
-    }
-    let p: [bool; 2] = kani::any();
-    let nhp: [bool; 2] = kani::any();
-    let mpfam: u32 = kani::any();
-    let nexthop = |b: bool| if b { Some(Nexthop::V4(Ipv4Addr::new(192, 0, 2, 1))) } else { None };
-    let reach = if p[0] { Some(ReachNlri { family: Family::IPV4, entries: blk(1), nexthop: nexthop(nhp[0]) }) } else { None };
-    let mp_reach = if p[1] { Some(ReachNlri { family: Family(mpfam), entries: blk(2), nexthop: nexthop(nhp[1]) }) } else { None };
-    let is_ebgp: bool = kani::any();
-    let announces = p[0] || p[1];
-    let missing_mandatory = announces
-        && (!has[0] || !has[1] || (p[0] && !nhp[0]) || (p[1] && !nhp[1] && !is_flowspec(Family(mpfam))));
-    let r = validate_update(
-        ParsedUpdate::Routes { reach, mp_reach, unreach: None, mp_unreach: None, attrs, error_attrs: Vec::new() },
-        is_ebgp,
-    );
-    assert!(r.is_ok(), "C05.attribute_errors_never_reset_the_session");
-    let msgs = r.unwrap();
-    let mut n_reach = 0;
-    let mut n_unreach = 0;
-    let mut k = 0;
-    while k < msgs.len() {
-        match &msgs[k] {
-            Message::Update(Update::Reach { family: _, entries: _, nexthop: _, attr }) => {
-                n_reach += 1;
-                assert!(!missing_mandatory, "C05.no_route_kept_when_mandatory_attribute_missing");
-                if is_ebgp {
-                    assert!(attr.len() == n_attr - n_ibgp_only, "C05.only_ibgp_only_attributes_dropped_from_external_peer");
-                    let mut j = 0;
-                    while j < attr.len() {
-                        let c = attr[j].code();
-                        assert!(c != Attribute::LOCAL_PREF && c != Attribute::ORIGINATOR_ID && c != Attribute::CLUSTER_LIST,
-                                "C05.ibgp_only_attributes_dropped_from_external_peer");
-                        j += 1;
-                    }
-                } else {
-                    assert!(attr.len() == n_attr, "C05.attributes_untouched_from_internal_peer");
-                }
-            }
-            Message::Update(Update::Unreach { .. }) => { n_unreach += 1; }
-            _ => { assert!(false, "C05.only_updates_come_out"); }
-        }
-        k += 1;
-    }
-    if missing_mandatory {
-        assert!(n_reach == 0 && n_unreach == (p[0] as usize) + (p[1] as usize), "C05.missing_mandatory_attribute_treated_as_withdraw");
-        kani::cover!(true, "missing-mandatory path reachable");
-    } else {
-        assert!(n_unreach == 0 && n_reach == (p[0] as usize) + (p[1] as usize), "C05.clean_update_keeps_its_routes");
-        kani::cover!(announces && is_ebgp && n_ibgp_only > 0, "ebgp strip path reachable");
-    }
-    core::mem::forget(msgs);
-    kani::cover!(true, "harness end reachable");
+    assert!(Attribute::canonical_flags(code) == expect, "C05.canonical_flags_is_the_rfc_flag_table");
+    kani::cover!(expect.is_some(), "known code");
+    kani::cover!(expect.is_none(), "unknown code");
 }
 
 // ------------------------------------------------------------------------------------------ C16: IpNet::contains
